@@ -51,6 +51,7 @@ pub fn base_weights() -> Vec<u32> {
     set(&mut w, Fam::Sorted, 1);
     set(&mut w, Fam::SortedEp, 1);
     set(&mut w, Fam::IntoVec, 1);
+    set(&mut w, Fam::CloneFrom, 1);
     w
 }
 
@@ -112,6 +113,7 @@ pub fn profile(prop: u32) -> Vec<u32> {
         }
         x if x == C14 => {
             bump(Fam::CloneSwap, 8);
+            bump(Fam::CloneFrom, 8);
             bump(Fam::EqSelf, 12);
         }
         x if x == C15 => {
@@ -143,7 +145,7 @@ fn key_fams(prop: u32) -> Vec<Fam> {
         x if x == C11 => vec![Fam::PushInc, Fam::PushDec],
         x if x == C12 => vec![Fam::Push, Fam::PushInc, Fam::PushDec, Fam::Change, Fam::ChangeBy, Fam::GetMut, Fam::PeekMut],
         x if x == C13 => vec![Fam::Iter, Fam::Adapt, Fam::IntoVec, Fam::Drain],
-        x if x == C14 => vec![Fam::CloneSwap, Fam::EqSelf],
+        x if x == C14 => vec![Fam::CloneSwap, Fam::EqSelf, Fam::CloneFrom],
         x if x == C15 => vec![Fam::Serde],
         x if x == C16 => vec![Fam::Drain, Fam::DrainLeak, Fam::Clear],
         x if x == C17 => vec![Fam::Reserve, Fam::TryReserve, Fam::Shrink],
@@ -221,11 +223,12 @@ pub struct Gen {
     pub payload_ctr: u32,
     pub huge_hints: bool,
     pub alloc_faults: bool,
+    pub late_writes: bool,
 }
 
 impl Gen {
     pub fn new(rng: Rng) -> Gen {
-        Gen { rng, payload_ctr: 1, huge_hints: false, alloc_faults: false }
+        Gen { rng, payload_ctr: 1, huge_hints: false, alloc_faults: false, late_writes: false }
     }
     fn fresh_payload(&mut self) -> u32 {
         self.payload_ctr += 1;
@@ -282,20 +285,40 @@ impl Gen {
                 _ => 25,
             }
         };
-        (0..len)
+        let mut v: Vec<ItOp> = (0..len)
             .map(|_| {
                 let x = r.below(100);
-                if x < 12 {
+                if x < 10 {
                     ItOp::Len
-                } else if x < 24 {
+                } else if x < 20 {
                     ItOp::SizeHint
+                } else if x < 30 {
+                    let k = match r.below(4) {
+                        0 => 0,
+                        1 => 1,
+                        2 => r.usize(4),
+                        _ => r.usize(n + 2),
+                    };
+                    if r.below(100) < back_w {
+                        ItOp::NthBack(k)
+                    } else {
+                        ItOp::Nth(k)
+                    }
                 } else if r.below(100) < back_w {
                     ItOp::NextBack
                 } else {
                     ItOp::Next
                 }
             })
-            .collect()
+            .collect();
+        // a quarter of the programs end by consuming the rest through internal iteration
+        match r.below(12) {
+            0 => v.push(ItOp::RestForEach),
+            1 => v.push(ItOp::RestCount),
+            2 => v.push(ItOp::RestLast),
+            _ => {}
+        }
+        v
     }
     pub fn rule(&mut self, cfg: &RunCfg, m: &Model) -> Rule {
         let keep = match self.rng.below(6) {
@@ -403,7 +426,13 @@ impl Gen {
                 };
                 let mut rule = self.rule(cfg, m);
                 rule.keep = 100;
-                Step::IterMut { prog: self.prog(n, dbl), via, end: if fam == Fam::IterMut { GEnd::Drop } else { GEnd::Forget }, rule }
+                let mut prog = self.prog(n, dbl);
+                let late = self.late_writes && fam == Fam::IterMut && self.rng.chance(1, 12);
+                if late && !matches!(prog.last(), Some(ItOp::RestLast)) {
+                    prog.retain(|o| !matches!(o, ItOp::RestForEach | ItOp::RestCount | ItOp::RestLast));
+                    prog.push(ItOp::RestLast);
+                }
+                Step::IterMut { prog, via, end: if fam == Fam::IterMut { GEnd::Drop } else { GEnd::Forget }, rule, late }
             }
             Fam::Drain | Fam::DrainLeak => Step::Drain { prog: self.prog(n, true), end: if fam == Fam::Drain { GEnd::Drop } else { GEnd::Forget } },
             Fam::Iter => {
@@ -460,6 +489,7 @@ impl Gen {
             Fam::Sorted => Step::Sorted { which: if self.rng.chance(1, 2) { SortedKind::VecA } else { SortedKind::VecB } },
             Fam::SortedEp => Step::SortedEp { prog: self.prog(n, dbl) },
             Fam::IntoVec => Step::IntoVec,
+            Fam::CloneFrom => Step::CloneFrom { dst: self.pairs(cfg, m, 2 * n + 4) },
         }
     }
 }
@@ -520,6 +550,7 @@ pub fn run_hist(cfg: &RunCfg, mut src: StepSrc, opts: &HistOpts) -> RunResult {
     if let StepSrc::Gen(g) = &mut src {
         g.huge_hints = opts.huge_hints;
         g.alloc_faults = opts.alloc_faults;
+        g.late_writes = opts.focus == C08;
     }
     let mut res = RunResult {
         end: RunEnd::Clean,
@@ -810,18 +841,21 @@ pub fn simplify_step(st: &Step) -> Vec<Step> {
                 o.push(Step::FromIter { extra: extra.clone(), hint: Hint::Exact });
             }
         }
-        Step::IterMut { prog, via, end, rule } => {
+        Step::IterMut { prog, via, end, rule, late } => {
             for v in shrink_prog(prog) {
-                o.push(Step::IterMut { prog: v, via: *via, end: *end, rule: *rule });
+                o.push(Step::IterMut { prog: v, via: *via, end: *end, rule: *rule, late: *late });
             }
             if *via != Via::Direct {
-                o.push(Step::IterMut { prog: prog.clone(), via: Via::Direct, end: *end, rule: *rule });
+                o.push(Step::IterMut { prog: prog.clone(), via: Via::Direct, end: *end, rule: *rule, late: *late });
             }
             if rule.rw != 0 || rule.plw != 0 {
                 let mut r2 = *rule;
                 r2.rw = 0;
                 r2.plw = 0;
-                o.push(Step::IterMut { prog: prog.clone(), via: *via, end: *end, rule: r2 });
+                o.push(Step::IterMut { prog: prog.clone(), via: *via, end: *end, rule: r2, late: *late });
+            }
+            if *late {
+                o.push(Step::IterMut { prog: prog.clone(), via: *via, end: *end, rule: *rule, late: false });
             }
         }
         Step::Drain { prog, end } => {
@@ -852,6 +886,12 @@ pub fn simplify_step(st: &Step) -> Vec<Step> {
             if *mutable {
                 o.push(Step::Retain { rule: *rule, mutable: false });
             }
+        }
+        Step::CloneFrom { dst } => {
+            for v in shrink_pairs(dst) {
+                o.push(Step::CloneFrom { dst: v });
+            }
+            o.push(Step::CloneSwap);
         }
         Step::TryReserve { n, exact, fault } => {
             if fault.is_some() {
